@@ -40,54 +40,79 @@ def check_validation(report):
     m = pm()
     fi = m.func("gapic.schema.api.API.enforce_valid_method_settings")
     fn, p = fi.node, fi.module.path
-    loops = [n for n in fn.body if isinstance(n, ast.For)]
-    r.need(len(loops) == 1 and isinstance(loops[0].target, ast.Name), "for method_settings in service_method_settings")
-    MS = loops[0].target.id
+    # Every error-recording statement of the function - and of the helpers it calls, with their parameters mapped to the call's arguments -
+    # is collected with the CANONICAL conditions under which it runs (guard clauses / nested ifs / continue, locals replaced by what
+    # they stand for). The rule then asks for one such statement per AIP-4235 violation.
+    from .common_rules import stmt_guards, local_env
+    from ..pynorm import normalizer, subst
+    N = normalizer(m)
+
+    def collect(cfi, mapping, prefix, depth):
+        env = dict(local_env(cfi.node))
+        env = {k: subst(v, mapping) for k, v in env.items()}     # helper locals are expressed in the caller's terms
+        env.update(mapping)
+        recs = []
+        for guards, st in stmt_guards(cfi.node, env):
+            g = prefix + guards
+            if records_error([st]):
+                recs.append((g, st, cfi))
+            if depth < 1:
+                for c in ast.walk(st):
+                    if isinstance(c, ast.Call):
+                        t = N._callee(cfi, c, {})
+                        if t is not None and t[0].qual.startswith("gapic.schema.") and t[0].qual != cfi.qual and not t[2]:
+                            a_ = t[0].node.args
+                            formal = [x.arg for x in a_.posonlyargs + a_.args]
+                            decs = [ast.unparse(d) for d in t[0].node.decorator_list]
+                            if t[0].cls is not None and "staticmethod" not in decs and formal and formal[0] in ("self", "cls"):
+                                formal = formal[1:]
+                            mp = {name: subst(arg, env) for name, arg in zip(formal, c.args)}
+                            mp.update({k.arg: subst(k.value, env) for k in c.keywords if k.arg})
+                            recs += collect(t[0], mp, g, depth + 1)
+        return recs
+    records = collect(fi, {}, [], 0)
+    r.need(len(records) >= 5, "error-recording statements in enforce_valid_method_settings (and helpers)", str(len(records)))
+    SETTINGS = fn.args.args[1].arg
+    loopsg = {g for guards, _, _ in records for g in guards if g[0] == "for" and g[2] == SETTINGS}
     r.instance("loop over all settings")
-    r.check(ast.unparse(loops[0].iter) == fn.args.args[1].arg, p, loops[0].lineno, ast.unparse(loops[0].iter), "every settings entry must be validated")
-    ifs = [n for n in ast.walk(fn) if isinstance(n, ast.If)]
+    r.check(len(loopsg) == 1 and all(any(g[0] == "for" and g[2] == SETTINGS for g in guards) for guards, _, _ in records), p, fn.lineno,
+            f"loops over the settings: {sorted(loopsg)}", "every settings entry must be validated")
+    MS = sorted(loopsg)[0][1] if loopsg else "method_settings"
+    SEL = f"{MS}.selector"
+    MD = f"self.all_methods.get({SEL})"
+    RQ = f"self.messages[{MD}.input_type.lstrip('.')]"
 
-    def branch(pattern, binds, what, extra=None):
-        hits = []
-        for i in ifs:
-            b = pmatch(pattern, i.test, dict(binds))
-            if b is not None and records_error(i.body):
-                hits.append((i, b))
+    def canon(f):
+        return (f[0].replace("wrappers.", ""), f[1]) if f[0] != "for" else f
+
+    facts = [({canon(g) for g in guards}, st) for guards, st, _ in records]
+
+    def has(pred, what):
         r.instance(what)
-        r.check(len(hits) >= 1, p, fn.lineno, f"error branch: {what}", f"enforce_valid_method_settings must record an error when {what}")
-        return hits[0] if hits else (None, {})
-
-    i, b = branch("_MS_.selector in _SEEN_", {"_MS_": MS}, "the selector was already seen (duplicate)")
-    if i is not None:
-        SEEN = b["_SEEN_"]
-        adds = [n for n in ast.walk(loops[0]) if isinstance(n, ast.Call) and pmatch("_SEEN_.add(_MS_.selector)", n, {"_SEEN_": SEEN, "_MS_": MS}) is not None]
-        r.check(len(adds) == 1, p, i.lineno, "selectors_seen.add(selector)", "every selector must be remembered for the duplicate check")
-    md = [n for n in ast.walk(loops[0]) if isinstance(n, ast.Assign) and pmatch("self.all_methods.get(_MS_.selector)", n.value, {"_MS_": MS}) is not None]
-    r.need(len(md) == 1 and isinstance(md[0].targets[0], ast.Name), "method_descriptor = self.all_methods.get(selector)")
-    MD = md[0].targets[0].id
-    branch("not _MD_", {"_MD_": MD}, "the selector names no method of the API")
-    i, b = branch("_MD_.client_streaming or _MD_.server_streaming", {"_MD_": MD}, "the method is client- or server-streaming")
-    if i is None:
-        branch("_MD_.server_streaming or _MD_.client_streaming", {"_MD_": MD}, "the method is streaming (either direction)")
-    req = [n for n in ast.walk(loops[0]) if isinstance(n, ast.Assign) and pmatch("self.messages[_MD_.input_type.lstrip('.')]", n.value, {"_MD_": MD}) is not None]
+        ok = any(any(pred(f) for f in fs) for fs, _ in facts)
+        r.check(ok, p, fn.lineno, f"error branch: {what}", f"enforce_valid_method_settings must record an error when {what}")
+        return ok
+    dup = [f for fs, _ in facts for f in fs if f[0] != "for" and f[1] is True and f[0].startswith(f"{SEL} in ")]
+    has(lambda f: f in dup, "the selector was already seen (duplicate)")
+    if dup:
+        SEEN = dup[0][0][len(f"{SEL} in "):]
+        adds = [n for n in ast.walk(fn) if isinstance(n, ast.Call) and isinstance(n.func, ast.Attribute) and n.func.attr == "add"
+                and ast.unparse(n.func.value) == SEEN and n.args and ast.unparse(subst(n.args[0], local_env(fn))) == SEL]
+        r.check(len(adds) == 1, p, fn.lineno, "selectors_seen.add(selector)", "every selector must be remembered for the duplicate check")
+    has(lambda f: f == (MD, False), "the selector names no method of the API")
+    has(lambda f: f[1] is True and f[0] in (f"OR({MD}.client_streaming; {MD}.server_streaming)",), "the method is client- or server-streaming")
+    fields_loops = {g for fs, _ in facts for g in fs if g[0] == "for" and g[2] == f"{MS}.auto_populated_fields"}
     r.instance("top-level request message")
-    r.check(len(req) == 1 and isinstance(req[0].targets[0], ast.Name), p, fn.lineno, "top_level_request_message = self.messages[input_type]",
-            "fields must be looked up in the method's own (top-level) request message")
-    if len(req) == 1:
-        RQ = req[0].targets[0].id
-        inner = [n for n in ast.walk(loops[0]) if isinstance(n, ast.For) and n is not loops[0]
-                 and pmatch("_MS_.auto_populated_fields", n.iter, {"_MS_": MS}) is not None]
-        r.check(len(inner) == 1 and isinstance(inner[0].target, ast.Name), p, fn.lineno, "for field_str in auto_populated_fields",
-                "every configured field must be validated")
-        if inner:
-            FS = inner[0].target.id
-            i, b = branch("_FS_ not in _RQ_.fields", {"_FS_": FS, "_RQ_": RQ}, "the field is not a top-level field of the request")
-            fl = [n for n in ast.walk(inner[0]) if isinstance(n, ast.Assign) and pmatch("_RQ_.fields[_FS_]", n.value, {"_RQ_": RQ, "_FS_": FS}) is not None]
-            r.need(len(fl) == 1, "field = request.fields[field_str]")
-            F = fl[0].targets[0].id
-            branch("_F_.type != wrappers.PrimitiveType.build(str)", {"_F_": F}, "the field is not a string")
-            branch("_F_.required", {"_F_": F}, "the field is REQUIRED")
-            branch("not _F_.uuid4", {"_F_": F}, "the field is not annotated format=UUID4")
+    r.check(len(fields_loops) == 1, p, fn.lineno, f"loop over {MS}.auto_populated_fields: {sorted(fields_loops)}", "every configured field must be validated")
+    FS = sorted(fields_loops)[0][1] if fields_loops else "field_str"
+    F = f"{RQ}.fields[{FS}]"
+    r.check(has(lambda f: f == (f"{FS} in {RQ}.fields", False), "the field is not a top-level field of the request"), p, fn.lineno,
+            "top_level_request_message = self.messages[input_type]", "fields must be looked up in the method's own (top-level) request message")
+    has(lambda f: f == (f"{F}.type == PrimitiveType.build(str)", False), "the field is not a string")
+    has(lambda f: f == (f"{F}.required", True), "the field is REQUIRED")
+    has(lambda f: f == (f"{F}.uuid4", False), "the field is not annotated format=UUID4")
+    loops = [n for n in fn.body if isinstance(n, ast.For)]
+    r.need(len(loops) == 1, "one loop over the settings at the top level of enforce_valid_method_settings")
     fin = [n for n in fn.body if isinstance(n, ast.If) and any(isinstance(x, ast.Raise) and x.exc is not None and "MethodSettingsError" in ast.unparse(x.exc) for x in n.body)]
     r.instance("raise")
     r.check(len(fin) == 1 and isinstance(fin[0].test, ast.Name) and fn.body.index(fin[0]) > fn.body.index(loops[0]), p, fn.lineno,
@@ -102,9 +127,13 @@ def check_validation(report):
     am = m.func("gapic.schema.api.API.all_method_settings")
     body = [s for s in am.node.body if not (isinstance(s, ast.Expr) and isinstance(s.value, ast.Constant))]
     r.instance("validate before return")
-    r.check(body and isinstance(body[0], ast.Expr) and ast.unparse(body[0].value).replace("\n", "").replace(" ", "") ==
-            "self.enforce_valid_method_settings(self.service_yaml_config.publishing.method_settings)", p, am.node.lineno,
-            ast.unparse(body[0])[:100] if body else "", "all_method_settings must validate the YAML's method_settings before returning anything")
+    aenv = local_env(am.node)
+    val_idx = [i for i, s_ in enumerate(body) if isinstance(s_, ast.Expr) and isinstance(s_.value, ast.Call)
+               and ast.unparse(s_.value.func) == "self.enforce_valid_method_settings" and len(s_.value.args) == 1
+               and ast.unparse(subst(s_.value.args[0], aenv)) == "self.service_yaml_config.publishing.method_settings"]
+    ret_idx = [i for i, s_ in enumerate(body) if isinstance(s_, ast.Return)]
+    r.check(len(val_idx) == 1 and ret_idx and val_idx[0] < min(ret_idx) and not any(isinstance(s_, (ast.If, ast.For, ast.Try)) for s_ in body[:val_idx[0]]),
+            p, am.node.lineno, ast.unparse(body[0])[:100] if body else "", "all_method_settings must validate the YAML's method_settings before returning anything")
     rets = [n for n in ast.walk(am.node) if isinstance(n, ast.Return)]
     r.check(len(rets) == 1 and isinstance(rets[0].value, ast.DictComp) and
             "auto_populated_fields=" in ast.unparse(rets[0].value) and not rets[0].value.generators[0].ifs, p, am.node.lineno, "returned mapping",
